@@ -102,5 +102,4 @@ package drpcmetadata
 //@ func Add
 //@   props C11 C13
 //@   requires ctx != nil
-//@   modifies *
 //@   ensures [ctx] result != nil
